@@ -398,7 +398,7 @@ func c18Random(c *core.Ctx, idx int) {
 			want := ""
 			for i, n := 0, r.Intn(3); i < n; i++ {
 				if r.Bool() {
-					x := []string{"&", "|", "&&", "∧"}[r.Intn(4)]
+					x := []string{"&", "|", "&&", "∧", "und", "OrElse"}[r.Intn(6)]
 					args = append(args, x)
 					want += x
 				} else {
